@@ -725,6 +725,9 @@ func (h *harness) record(c *Case, ev *evaluated) {
 			}
 			nontrivial = n >= 2
 			if c.gdoc != nil {
+				if c.gdoc.Respelled > 0 {
+					run.Count("doc-feature:overlapping-fields-with-respelled-string-arguments")
+				}
 				if lits, vars := c.gdoc.scalarLiteralShape(); lits > 0 {
 					run.Count("doc-feature:list-or-object-literal-for-custom-scalar")
 					if vars > 0 {
@@ -1217,7 +1220,7 @@ func main() {
 		}
 	}
 	run := hx.Init("C04")
-	h := &harness{run: run, muts: mutations()}
+	h := &harness{run: run, muts: append(mutations(), kindMutations()...)}
 	if run.ModelPath != "" {
 		m, err := hx.StartModel(run.ModelPath)
 		if err != nil {
@@ -1231,6 +1234,19 @@ func main() {
 	run.SetRule("cases = (generated schema, feature set, document); documents are generated valid-by-construction (type-directed: fragments reached along several paths, aliases, identical overlapping fields, variables in nested input positions, directives with literals and variables, introspection fields, abstract types with fragments) and then optionally mutated by one of 30 rule-targeted mutations; distinct = distinct (schema, features, document text); non-trivial = a valid document using at least two of {fragment spread, inline fragment, variable, directive, introspection field}, or a mutant whose targeted rule the Lean specification reports as violated")
 
 	if run.Replay != "" {
+		var sn struct {
+			Definition *NDef `json:"definition"`
+		}
+		if hx.LoadReplayCase(run.Replay, &sn) == nil && sn.Definition != nil {
+			// a case of the schema.New stream (schemanew.go)
+			var st snStats
+			fmt.Printf("replay: schema.New stream, step %s\ndefinition: %s\n", sn.Definition.Mutation_, sn.Definition.sexp())
+			h.runSchemaNew(sn.Definition, &st)
+			fmt.Printf("real schema.New: accepted=%d rejected=%d; model/description failures: %q %q %q %q\n", st.accepted, st.rejected, st.failVerdict, st.failDesc, st.failIntro, st.failHyp)
+			st.oblige(run)
+			run.Finish(h.model)
+			return
+		}
 		var c Case
 		if err := hx.LoadReplayCase(run.Replay, &c); err != nil {
 			fmt.Fprintln(os.Stderr, err)
@@ -1255,7 +1271,17 @@ func main() {
 	}
 
 	h.selfTest()
+	var snst snStats
 	for _, f := range run.CorpusFiles() {
+		var sn struct {
+			Definition *NDef `json:"definition"`
+		}
+		if hx.LoadReplayCase(f, &sn) == nil && sn.Definition != nil {
+			// a hand-picked schema definition (schema.New stream)
+			h.runSchemaNew(sn.Definition, &snst)
+			run.Count("corpus-definitions")
+			continue
+		}
 		var c Case
 		if err := hx.LoadReplayCase(f, &c); err != nil || c.Schema == nil {
 			run.Note("corpus file %s unreadable: %v", f, err)
@@ -1276,6 +1302,7 @@ func main() {
 		h.process(&c, ev)
 	}
 
+	snSteps := illSteps()
 	nSchemas := run.Scale(360, 8000)
 	docsPerSchema := run.Scale(14, 16)
 	mutsPerDoc := run.Scale(4, 6)
@@ -1289,6 +1316,7 @@ func main() {
 			continue
 		}
 		run.Count("schemas")
+		h.schemaNewStream(sr.Fork(), sd, run.Scale(6, 8), &snst, snSteps)
 		featSets := [][]string{nil}
 		hasFx := false
 		for _, t := range sd.Types {
@@ -1338,6 +1366,7 @@ func main() {
 			run.Sample(map[string]any{"stream": batch[1].Stream, "rule": batch[1].Rule, "query": batch[1].Query})
 		}
 	}
+	snst.oblige(run)
 	run.Finish(h.model)
 }
 
